@@ -50,6 +50,8 @@ impl Default for RoundingMode {
     /// It is initially set to [RoundingMode::RoundHalfEven], but can be
     /// changed using the fn [RoundingMode::set_default].
     fn default() -> Self {
+        #[cfg(fpdec_verif)]
+        crate::verif_hooks::point(1);
         DFLT_ROUNDING_MODE.with(|m| *m.borrow())
     }
 }
@@ -58,7 +60,11 @@ impl Default for RoundingMode {
 impl RoundingMode {
     /// Sets the default RoundingMode for the current thread.
     pub fn set_default(mode: Self) {
+        #[cfg(fpdec_verif)]
+        crate::verif_hooks::point(2);
         DFLT_ROUNDING_MODE.with(|m| *m.borrow_mut() = mode);
+        #[cfg(fpdec_verif)]
+        crate::verif_hooks::point(3);
     }
 }
 
@@ -110,10 +116,14 @@ fn round_quot(
     }
     // here: |divisor| >= 2 => rem <= |divident| / 2,
     // therefor it's safe to use rem << 1
+    #[cfg(fpdec_verif)]
+    crate::verif_hooks::point(4);
     let mode = match mode {
         None => RoundingMode::default(),
         Some(mode) => mode,
     };
+    #[cfg(fpdec_verif)]
+    crate::verif_hooks::point(5);
     match mode {
         RoundingMode::Round05Up => {
             // Round down unless last digit is 0 or 5:
@@ -193,6 +203,8 @@ pub fn i128_div_rounded(
     mut divisor: i128,
     mode: Option<RoundingMode>,
 ) -> i128 {
+    #[cfg(fpdec_verif)]
+    crate::verif_hooks::point(6);
     if divisor < 0 {
         divident = -divident;
         divisor = -divisor;
@@ -212,6 +224,8 @@ pub fn i128_shifted_div_rounded(
     mut divisor: i128,
     mode: Option<RoundingMode>,
 ) -> Option<i128> {
+    #[cfg(fpdec_verif)]
+    crate::verif_hooks::point(7);
     if divisor < 0 {
         divident = -divident;
         divisor = -divisor;
@@ -230,6 +244,8 @@ pub fn i128_mul_div_ten_pow_rounded(
     p: u8,
     mode: Option<RoundingMode>,
 ) -> Option<i128> {
+    #[cfg(fpdec_verif)]
+    crate::verif_hooks::point(8);
     let divisor = ten_pow(p);
     let (quot, rem) = i256_div_mod_floor(x, y, divisor)?;
     // div_mod_floor with divisor > 0 => rem >= 0
